@@ -417,13 +417,13 @@ arena_realloc_fast(struct arena_scope *s, char *ptr, size_t old_size,
 	struct arena *a = s->arena;
 	union address old_addr;
 
+	arena_scope_validate(a, s, new_size);
+
 	/* Always allow existing allocations to shrink. */
 	if (new_size <= old_size) {
 		arena_poison(&ptr[new_size], old_size - new_size);
 		return 1;
 	}
-
-	arena_scope_validate(a, s, new_size);
 
 	/* Check if this is the last allocated object. */
 	old_addr.s8 = ptr;
